@@ -10,6 +10,9 @@ compared row-for-row with the unbatched run of the same data; environments lacki
 rejected with an error.  Unbatched environments may be ragged in the keys coba's own interaction classes leave out per
 interaction (the logged 'probability', extra fields): the IPS transform is reward/probability of *that* interaction
 (absent probability = no re-weighting) and a row carries exactly the extra fields of its own interaction.
+In part of the cases one SequentialCB object serves several evaluate() calls (other learner kind, a field missing,
+batched or not) before the checked ones: every call is held to the same model, and a deviation that a new evaluator
+object does not show is reported as `evaluator-reused/...`.
 """
 import re, math, traceback
 
@@ -24,9 +27,13 @@ RULE  = ("seeded environments (context absent/None/scalar/dense/sparse/categoric
          "record options x scripted recording learner (8 prediction formats, with/without score, batch-aware or not); "
          "a case is one evaluate() call checked against the reference model (+ its unbatched twin, + one rejection run "
          "per readable field); unbatched environments may have ragged key sets (logged 'probability' and extra fields "
-         "present on some interactions and absent on others, at any position incl. the first); "
+         "present on some interactions and absent on others, at any position incl. the first); rewards sequences are lists "
+         "or tuples; sparse actions are also answered bare (the offered dict itself, 1-3 features); in ~30% of the cases "
+         "the SequentialCB object has served 1-2 other evaluate() calls before (same data with a learner with/without "
+         "`score`, with one field removed, batched or not) and then serves the main, twin and rejection runs; "
          "distinct & non-trivial = distinct (learn, eval, record set, context kind, action kind, "
-         "reward kind, logged?, prediction format, score?, batch class, learner style, ragged probability?, ragged extras?) "
+         "reward kind, logged?, prediction format, score?, batch class, learner style, ragged probability?, ragged extras?, "
+         "number of earlier evaluate() calls of the evaluator object) "
          "with >= 2 interactions")
 PLAN  = {"quick":    {"shards": 16, "cases": 64000,   "timeout": 600,  "budget_s": 75},
          "thorough": {"shards": 16, "cases": 3200000, "timeout": 3000, "budget_s": 840}}
@@ -39,7 +46,10 @@ REQUIRED = ["oracle.trace.order", "oracle.trace.predict", "oracle.trace.learn.on
             "oracle.ragged.extras.present", "oracle.ragged.extras.absent"] + [
             f"oracle.exact.predict-actions:{k}" for k in ("bigint", "nearfloat", "nearstr", "bigtuple", "mixed")] + [
             "oracle.exact.learn-action", "oracle.exact.rows-action", "oracle.exact.rows-actions",
-            "oracle.exact.reward.learn", "oracle.exact.reward.rows"]
+            "oracle.exact.reward.learn", "oracle.exact.reward.rows",
+            "oracle.reuse.prior", "oracle.reuse.prior.other-kind-of-learner", "oracle.reuse.prior.field-missing",
+            "oracle.reuse.reject", "oracle.reuse.lenient==fresh", "oracle.reject.actions-needed-to-record-the-prediction",
+            "oracle.input.bare-sparse-action", "oracle.input.tuple-rewards"]
 ASSUMPTIONS = [
     "dr/dm modes and record='ope_loss' need vowpalwabbit and are excluded",
     "context / actions / rewards / action / reward are present on every interaction of an environment or on none (coba's "
@@ -64,15 +74,21 @@ ASSUMPTIONS = [
     "no lazy rows); otherwise only positional relations (chosen index -> reward of that index) are asserted",
 
     "prediction shapes are restricted to those SafeLearner classifies without its extra probing predict "
-    "(no batch whose size equals the length of a prediction row; no PMF over fewer than 3 actions; no bare dict action); "
+    "(no batch whose size equals the length of a prediction row -- the probe is SafeLearner's documented way to tell row- from "
+    "column-major answers and is pinned by coba's test_safety; no PMF over fewer than 3 actions; a bare dict action only "
+    "unbatched, because a batch answered with a list of dicts is read as hints/columns); "
     "the format grid itself is C15's subject",
+    "an evaluator object may be used for any number of evaluate() calls; every call must behave as specified whatever the "
+    "object evaluated before (for the leniently treated fields: reject or fall back exactly as a new evaluator object does)",
+    "when 'action' or 'probability' is to be recorded under an eval mode the learner has to predict, so 'actions' is a field "
+    "the configuration needs even for a scoring learner under eval='ips'",
     "learners that cannot take batches (SafeLearner's per-item fallback) are only used when every learner argument is "
     "batched (context present; logged probability present for learn='off')",
     "when a mode does not need a prediction the model accepts either no predict or exactly one predict per interaction; "
     "IPS evaluation is checked as score*reward/probability when the learner was asked to score and as the IPS reward of "
     "the predicted action when it was asked to predict",
     "a missing logged 'probability' under an IPS mode, and a missing 'actions' key under eval='ips' with a scoring "
-    "learner that is not asked to predict, must either be rejected or be evaluated as probability 1 / actions None "
+    "learner that is not asked to predict (neither by the learn mode nor to record its action/probability), must either be rejected or be evaluated as probability 1 / actions None "
     "(the docstring lists them as required, coba's own tests pin the fallback): only asserted differentially",
     "'time' columns are only checked to be non-negative numbers; when nothing at all is to be recorded zero rows are accepted",
     "CobaContext.learning_info is not used by the scripted learners (not part of the statement)",
@@ -126,10 +142,13 @@ class LinReward:
     def __init__(self, a, b): self.a, self.b = a, b
     def __call__(self, action): return self.a*action + self.b
 
+TABLE_KINDS = ("list", "tuple", "dpair", "dmap", "fn")      # one stored reward per offered action
+
 def build_rewards(rs, actions):
     from coba.primitives import DiscreteReward, BinaryReward, L1Reward
     k = rs["kind"]
     if k == "list":   return list(rs["v"])
+    if k == "tuple":  return tuple(rs["v"])             # a sequence of rewards that is not a list
     if k == "dpair":  return DiscreteReward(list(actions), list(rs["v"]))
     if k == "dmap":   return DiscreteReward({actions[i]: rs["v"][i] for i in rs["order"]})
     if k == "binary": return BinaryReward(actions[rs["j"]], rs["value"]) if rs["value"] != 1 else BinaryReward(actions[rs["j"]])
@@ -141,7 +160,7 @@ def build_rewards(rs, actions):
 def reward_at(rs, j=None, x=None):
     """the environment's reward of the j-th offered action (discrete) / of the value x (continuous), from the spec"""
     k = rs["kind"]
-    if k in ("list", "dpair", "dmap", "fn"): return rs["v"][j]
+    if k in TABLE_KINDS: return rs["v"][j]
     if k == "binary": return rs["value"] if j == rs["j"] else 0
     if k == "l1":     return -abs(x - rs["argmax"])
     if k == "lin":    return rs["a"]*x + rs["b"]
@@ -168,7 +187,7 @@ A_POOL = {
     "tuple": [T(1, 0, 0), T(0, 1, 0), T(0, 0, 1), T(2, 2, 2), T(1, 1, 0), T(0, 0, 0)],
     "pair":  [T(1, 0), T(0, 1), T(2, 2), T(1, 1), T(5, 0.5)],
     "list":  [[1, 2], [2, 1], [0, 0], [3, 4], ["a", 1]],
-    "sparse": [D(a=1), D(b=1), D(a=1, b=2), D(c=0.5), D(a=2)],
+    "sparse": [D(a=1), D(b=1), D(a=1, b=2), D(c=0.5), D(a=2), D(b=1, c=2), D(a=1, b=2, c=3)],
     "cat":   [{"t": "cat", "v": l, "levels": ["r", "g", "b", "y"]} for l in ["r", "g", "b", "y"]],
     # ---- "exact-identity" action sets: pairwise distinct actions that a lossy conversion (int->float, float->int,
     #      float rounding, str()/strip()/lower(), number<->numeral) would alter or merge with a neighbour
@@ -210,10 +229,10 @@ def gen_case(rng):
     if ckind == "absent" and not has_actions and not has_logged: ckind = "int"       # an interaction has at least one field
     cont  = akind in CONT
     if akind in CONT:      rkinds = ["l1", "lin"]
-    elif akind in ("int", "float", "bigint", "nearfloat"): rkinds = ["list", "list", "dpair", "dmap", "binary", "l1", "fn"]
-    elif akind in ("list", "sparse"): rkinds = ["list", "dpair", "binary", "fn"]
-    elif akind == "cat":   rkinds = ["list", "dpair", "dmap", "dmap", "binary", "fn"]
-    else:                  rkinds = ["list", "dpair", "dmap", "binary", "fn"]
+    elif akind in ("int", "float", "bigint", "nearfloat"): rkinds = ["list", "list", "tuple", "dpair", "dmap", "binary", "l1", "fn"]
+    elif akind in ("list", "sparse"): rkinds = ["list", "tuple", "dpair", "binary", "fn"]
+    elif akind == "cat":   rkinds = ["list", "tuple", "dpair", "dmap", "dmap", "binary", "fn"]
+    else:                  rkinds = ["list", "tuple", "dpair", "dmap", "binary", "fn"]
     rkind = rng.choice(rkinds) if has_rewards else None
 
     const_actions = rng.random() < .4
@@ -239,7 +258,7 @@ def gen_case(rng):
                     base_actions = acts
             it["actions"] = acts
         if has_rewards:
-            if rkind in ("list", "dpair", "fn"): rs = {"kind": rkind, "v": [rng.choice(RW_POOL) for _ in acts]}
+            if rkind in ("list", "tuple", "dpair", "fn"): rs = {"kind": rkind, "v": [rng.choice(RW_POOL) for _ in acts]}
             elif rkind == "dmap":
                 order = list(range(len(acts))); rng.shuffle(order)
                 rs = {"kind": "dmap", "v": [rng.choice(RW_POOL) for _ in acts], "order": order}
@@ -261,7 +280,7 @@ def gen_case(rng):
 
     # ---- learner script
     if cont: fmts = ["a", "ak", "hint_ap", "hint_apk"]
-    elif akind == "sparse": fmts = ["ap", "apk", "hint_ap", "hint_apk"]
+    elif akind == "sparse": fmts = ["ap", "apk", "hint_ap", "hint_apk", "a", "ak"]      # "a": the bare offered dict itself
     else: fmts = ["a", "ap", "apk", "ak", "hint_ap", "hint_apk"]
     if has_actions and not cont and all(len(i["actions"]) >= 3 for i in inter): fmts = fmts + ["pmf1", "pmf1k"]
     fmt = rng.choice(fmts)
@@ -286,7 +305,8 @@ def gen_case(rng):
         ls["style"] = rng.choice(["row", "fallback"])
         if ls["style"] == "fallback" and (ckind == "absent" or (learn == "off" and not has_prob)):
             ls["style"] = "row"
-        if ls["style"] == "row":
+        if akind == "sparse" and fmt == "a": batch = None       # a batch answered with bare dicts is read as hints / columns (C15)
+        if batch is not None and ls["style"] == "row":
             rl = _first_row_len(inter[0], ls)       # SafeLearner probes with an extra predict when the first batch is "square"
             ok = [b for b in cands if min(b, N) != rl]
             if min(batch, N) == rl: batch = rng.choice(ok) if ok else None
@@ -313,8 +333,20 @@ def gen_case(rng):
                 for it, kp in zip(inter, keep):
                     if not kp: del it[k]
             rag_extras = True
+    # ---- one evaluator object for several evaluate() calls (the way an Experiment pairs one evaluator with many learners
+    #      and environments): before the case proper the same SequentialCB evaluates other (environment, learner) pairs --
+    #      the learner with / without `score`, the environment with one of its fields missing, batched or not
+    reuse = None
+    if rng.random() < .3:
+        have = sorted({k for it in inter for k in it if k != "_lk"})
+        prior = []
+        for _ in range(rng.choice([1, 1, 2])):
+            drop = rng.choice(have) if rng.random() < .4 else None
+            pb = batch if (rng.random() < .6 and drop not in ("context", "probability")) else None
+            prior.append({"score": rng.random() < .5, "drop": drop, "batch": pb})
+        reuse = {"prior": prior}
     spec = {"learn": learn, "eval": eval_, "record": record, "inter": inter, "batch": batch, "learner": ls,
-            "ragged": {"prob": rag_prob, "extras": rag_extras},
+            "ragged": {"prob": rag_prob, "extras": rag_extras}, "reuse": reuse,
             "kinds": {"context": ckind, "actions": akind, "rewards": rkind, "logged": has_logged, "prob": has_prob,
                       "const_actions": const_actions or bool(const_prefix)}, "key_order_seed": key_order_seed, "seed": rng.choice([None, 1, 7]),
             "cls": "coba" if key_order_seed is None and rng.random() < .4 else "dict"}
@@ -511,19 +543,23 @@ def _exc_sig(e):
     msg = re.sub(r"[^A-Za-z#_ ]+", " ", msg).strip()[:48].strip().replace(" ", "-")
     return f"raise:{type(e).__name__}@{where}:{msg}"
 
-def run_eval(spec, batch, drop=None, learner_over=None):
-    """runs the real evaluator once.  returns (rows | None, trace, exception | None)"""
+def make_evaluator(spec):
     from coba.evaluators import SequentialCB
+    kw = {"learn": spec["learn"], "eval": spec["eval"], "seed": spec.get("seed")}
+    if spec["record"] is not None: kw["record"] = spec["record"]
+    return SequentialCB(**kw)
+
+def run_eval(spec, batch, drop=None, learner_over=None, ev=None):
+    """runs the real evaluator once (ev: an evaluator object that may have been used before; None = a new one).
+    returns (rows | None, trace, exception | None)"""
     from coba.context import CobaContext, NullLogger
     CobaContext.logger = NullLogger()
     CobaContext.learning_info.clear()
     ls = dict(spec["learner"]) if learner_over is None else learner_over
     lrn = make_learner(ls)
     env = ListEnv(build_interactions(spec, drop), batch)
-    kw = {"learn": spec["learn"], "eval": spec["eval"], "seed": spec.get("seed")}
-    if spec["record"] is not None: kw["record"] = spec["record"]
     try:
-        rows = list(SequentialCB(**kw).evaluate(env, lrn))
+        rows = list((ev if ev is not None else make_evaluator(spec)).evaluate(env, lrn))
         return rows, lrn.trace, None
     except Exception as e:
         return None, lrn.trace, e
@@ -548,7 +584,7 @@ def model_check(spec, rows, trace, batch, note, p_default=None):
     exact_kind = kinds["actions"] if kinds["actions"] in EXACT_KINDS else None       # action sets only an exact hand-through preserves
     xnote = (lambda name: note(f"oracle.exact.{name}")) if exact_kind else (lambda name: None)
     xtag  = (lambda seen, orig: f"/{exact_kind}-actions/{_alter_mode(seen, orig)}") if exact_kind else (lambda seen, orig: "")
-    table_rw = has_rewards and inter[0]["rewards"]["kind"] in ("list", "dpair", "dmap", "fn", "binary")
+    table_rw = has_rewards and inter[0]["rewards"]["kind"] in TABLE_KINDS + ("binary",)
 
     P = [e for e in trace if e["e"] == "predict"]
     L = [e for e in trace if e["e"] == "learn"]
@@ -560,6 +596,8 @@ def model_check(spec, rows, trace, batch, note, p_default=None):
     # ---- 1. which calls, how many, in which order
     note("oracle.trace.order")
     if batch: note("oracle.trace.batched")
+    if did_pred and kinds["actions"] == "sparse" and ls["fmt"] in ("a", "ak"): note("oracle.input.bare-sparse-action")
+    if kinds["rewards"] == "tuple" and (learn == "on" or eval_ == "on" or "rewards" in record): note("oracle.input.tuple-rewards")
     if pred_needed and not did_pred:
         V.append((f"trace.predict-missing/{mtag}", f"mode needs predictions but predict was never called (N={N})")); return V
     exp_seq = []
@@ -766,27 +804,62 @@ def _canon_rows(rows):
     if all(not d for d in out): out = []      # rows holding nothing but an absent probability == no rows
     return out
 
+KNOWN_UNSPLIT = "rows.batched-rows-not-unbatched"
+
+def _in_tags(spec, exc):
+    """structural features of the input that select a code path of their own (part of an exception's signature):
+    how a prediction is read is decided in coba/safety.py, what a rewards value is everywhere else"""
+    k, tags = spec["kinds"], ""
+    in_safety = "@safety." in _exc_sig(exc)
+    if in_safety and k["actions"] == "sparse" and spec["learner"]["fmt"] in ("a", "ak"): tags += "/bare-sparse-action"
+    if not in_safety and k["rewards"] == "tuple": tags += "/tuple-rewards"
+    return tags
+
+def _judge(spec, rows, trace, exc, batch, note):
+    """verdict on one evaluate() call of an environment that holds every field the mode reads"""
+    if exc is None: return model_check(spec, rows, trace, batch, note)
+    if isinstance(exc, _NoBatch): raise exc
+    learn, eval_ = spec["learn"], spec["eval"]
+    if (spec.get("ragged") or {}).get("prob") and type(exc).__name__ in ("KeyError", "CobaException") and "probability" in str(exc):
+        # an environment in which some interactions lack the logged probability may be rejected with an error naming
+        # the field (the alternative, evaluating them without re-weighting, is what the model checks)
+        note("oracle.ragged.rejected:" + ("ips-mode" if "ips" in (learn, eval_) else "mode-not-reading-probability"))
+        return []
+    return [(f"{_exc_sig(exc)}{'/batched' if batch else ''}{_in_tags(spec, exc)}", f"evaluate raised {type(exc).__name__}: {exc} (learn={learn}, eval={eval_}, record={spec['record']}, batch={batch})")]
+
 def check_case(spec, ctx=None):
-    """one generated case: the main evaluation, its unbatched twin when batched, and the rejection runs"""
+    """one generated case: (the evaluate() calls the evaluator object served before,) the main evaluation, its unbatched
+    twin when batched, and the rejection runs"""
+    V = _check_case(spec, ctx)
+    if V and spec.get("reuse") and not all(s == KNOWN_UNSPLIT for s, _ in V):
+        # is it the history of the evaluator object that makes the difference?
+        if not _check_case(spec, None, shared=False):        # the same calls, each served by an evaluator object of its own
+            V = [(s if s.startswith("reuse.") else f"evaluator-reused/{s}", w + "  [the evaluator object had been used for other evaluate() calls before; a new "
+                  "evaluator object handles the very same call as specified]") for s, w in V]
+    return V
+
+def _check_case(spec, ctx=None, shared=True):
     def note(name):
         if ctx: ctx.count(name)
-    V = []
+    V, V_known = [], []
     learn, eval_, batch = spec["learn"], spec["eval"], spec["batch"]
-    rows, trace, exc = run_eval(spec, batch)
-    flags = ("/batched" if batch else "") + ("" if _is_final(spec) else "/non-final")
-    if exc is not None:
-        if isinstance(exc, _NoBatch): raise exc
-        if (spec.get("ragged") or {}).get("prob") and type(exc).__name__ in ("KeyError", "CobaException") and "probability" in str(exc):
-            # an environment in which some interactions lack the logged probability may be rejected with an error naming
-            # the field (the alternative, evaluating them without re-weighting, is what the model checks)
-            note("oracle.ragged.rejected:" + ("ips-mode" if "ips" in (learn, eval_) else "mode-not-reading-probability"))
-        else: V.append((f"{_exc_sig(exc)}{'/batched' if batch else ''}", f"evaluate raised {type(exc).__name__}: {exc} (learn={learn}, eval={eval_}, record={spec['record']}, batch={batch})"))
-    else:
-        V += model_check(spec, rows, trace, batch, note)
+    reuse = spec.get("reuse")
+    ev = make_evaluator(spec) if reuse and shared else None          # None: every evaluate() call gets an evaluator of its own
+    for n, pr in enumerate(reuse["prior"] if reuse else []):
+        sv = dict(spec, learner=dict(spec["learner"], score=pr["score"]))
+        rows_p, trace_p, exc_p = run_eval(sv, pr["batch"], drop=pr["drop"], ev=ev)
+        if pr["drop"] is not None: note("oracle.reuse.prior.field-missing"); continue      # only there to be remembered
+        note("oracle.reuse.prior")
+        if pr["score"] != spec["learner"]["score"]: note("oracle.reuse.prior.other-kind-of-learner")
+        v = _judge(sv, rows_p, trace_p, exc_p, pr["batch"], note)
+        if v and all(s == KNOWN_UNSPLIT for s, _ in v): V_known = v[:1]
+        elif v: return v
+    rows, trace, exc = run_eval(spec, batch, ev=ev)
+    V += _judge(spec, rows, trace, exc, batch, note)
     if batch and not V:
-        rows_u, trace_u, exc_u = run_eval(spec, None)
+        rows_u, trace_u, exc_u = run_eval(spec, None, ev=ev)
         if exc_u is not None:
-            V.append((f"{_exc_sig(exc_u)}", f"unbatched twin raised {type(exc_u).__name__}: {exc_u}"))
+            V.append((f"{_exc_sig(exc_u)}{_in_tags(spec, exc_u)}", f"unbatched twin raised {type(exc_u).__name__}: {exc_u}"))
         else:
             V += model_check(spec, rows_u, trace_u, None, note)
             if not V:
@@ -799,7 +872,11 @@ def check_case(spec, ctx=None):
     # ---- rejection: remove, in turn, each field the mode reads
     if not V and (ctx is None or spec.get("reject", True)):
         ls = spec["learner"]
-        pred_needed = learn in ("on", "ips") or eval_ == "on" or (eval_ == "ips" and not ls["score"])
+        rec = spec["record"]
+        rec = ["reward", "action", "probability"] if rec is None else [rec] if isinstance(rec, str) else rec
+        mode_pred = learn in ("on", "ips") or eval_ == "on" or (eval_ == "ips" and not ls["score"])
+        rec_pred  = bool(eval_) and ("action" in rec or "probability" in rec)     # the learner's choice itself is to be recorded
+        pred_needed = mode_pred or rec_pred
         strict = set()
         if learn == "on" or eval_ == "on": strict |= {"actions", "rewards"}
         if learn in ("off", "ips") or eval_ == "ips": strict |= {"action", "reward"}
@@ -809,26 +886,42 @@ def check_case(spec, ctx=None):
             lenient.add("probability")
             if "actions" not in strict: lenient.add("actions")
         have = {k for it in spec["inter"] for k in it}
+        bt = "/batched" if batch else ""
         for key in sorted((strict | lenient) & have):
-            rows_r, trace_r, exc_r = run_eval(spec, batch, drop=key)
+            rows_r, trace_r, exc_r = run_eval(spec, batch, drop=key, ev=ev)
             note("oracle.reject")
-            if exc_r is not None: note("oracle.reject.raised"); continue
+            if ev is not None: note("oracle.reuse.reject")
+            if key == "actions" and rec_pred and not mode_pred: note("oracle.reject.actions-needed-to-record-the-prediction")
+            if isinstance(exc_r, _NoBatch): raise exc_r
             if key in strict:
-                V.append((f"reject.not-rejected/missing={key}/learn={learn}/eval={eval_}{'/batched' if batch else ''}",
-                          f"environment without {key!r} was evaluated ({len(rows_r)} rows) by SequentialCB(learn={learn},eval={eval_})")); break
+                if exc_r is not None: note("oracle.reject.raised"); continue
+                why = "/prediction-needed-only-for-recorded-action-or-probability" if key == "actions" and not mode_pred else ""
+                V.append((f"reject.not-rejected/missing={key}/learn={learn}/eval={eval_}{bt}{why}",
+                          f"environment without {key!r} was evaluated ({len(rows_r)} rows) by SequentialCB(learn={learn},eval={eval_},record={spec['record']}); "
+                          f"the learner was called with {[(e['e'], e.get('actions', '-')) for e in trace_r[:3]]}...")); break
+            if ev is not None:
+                # what an evaluator does with an environment lacking a leniently treated field must not depend on what the
+                # evaluator object was used for before
+                rows_f, trace_f, exc_f = run_eval(spec, batch, drop=key)
+                note("oracle.reuse.lenient==fresh")
+                if (exc_f is None) != (exc_r is None):
+                    V.append((f"reuse.differs-from-new-evaluator/missing={key}/learn={learn}/eval={eval_}{bt}/{'rejected' if exc_r is not None else 'evaluated'}-only-when-used-before",
+                              f"environment without {key!r}: an evaluator object used before {'raised ' + repr(exc_r) if exc_r is not None else 'yielded %d rows' % len(rows_r)}, "
+                              f"a new one {'raised ' + repr(exc_f) if exc_f is not None else 'yielded %d rows' % len(rows_f)}")); break
+            if exc_r is not None: note("oracle.reject.raised"); continue
             # lenient keys: accepted => must behave exactly as probability 1 / actions None
             note("oracle.reject.lenient-evaluated")
             spec2 = dict(spec); spec2["inter"] = [{k: v for k, v in it.items() if k != key} for it in spec["inter"]]
             if key == "actions":
                 spec2["kinds"] = dict(spec["kinds"], actions="none", cat_action=spec["kinds"]["actions"] == "cat")
             v2 = model_check(spec2, rows_r, trace_r, batch, lambda n: None, p_default=1)
-            if v2 and v2[0][0].startswith("rows.batched-rows-not-unbatched"): V.append(v2[0]); break
+            if v2 and v2[0][0].startswith(KNOWN_UNSPLIT): V.append(v2[0]); break
             if v2 and key == "probability" and v2[0][0].startswith(("trace.predict-args", "trace.score-args")):
                 V.append(v2[0]); break            # what predict/score are offered cannot depend on the logged probability
             if v2:
-                V.append((f"reject.mis-evaluated/missing={key}/learn={learn}/eval={eval_}{'/batched' if batch else ''}",
+                V.append((f"reject.mis-evaluated/missing={key}/learn={learn}/eval={eval_}{bt}",
                           f"environment without {key!r} was accepted but not evaluated as the documented fallback: {v2[0][1]}")); break
-    return V
+    return V or V_known
 
 # ------------------------------------------------------------------------------------------------ entry points
 def _case_key(spec):
@@ -840,7 +933,8 @@ def _case_key(spec):
     return (spec["learn"], spec["eval"], rec, k["context"], k["actions"], k["rewards"], k["logged"], k["prob"],
             ls["fmt"], ls["score"], bc, ls["style"] if b else None,
             bool([x for it in spec["inter"] for x in it if x not in EXCLUDED and x != "_lk"]),
-            bool((spec.get("ragged") or {}).get("prob")), bool((spec.get("ragged") or {}).get("extras")))
+            bool((spec.get("ragged") or {}).get("prob")), bool((spec.get("ragged") or {}).get("extras")),
+            len(spec["reuse"]["prior"]) if spec.get("reuse") else 0)
 
 def run_shard(ctx):
     i = 0
